@@ -38,6 +38,8 @@ class Ctl(object):
         lab = self.label(node)
         if isinstance(arg, tuple):
             a = [self.label(x) for x in arg]
+        elif kind.endswith("_children"):
+            a = ["not-a-tuple:%s" % type(arg).__name__]      # the hooks are documented to receive the children tuple
         else:
             a = [self.label(arg)]
         self.log.append([kind, lab, a, self.snapshot()])
@@ -84,6 +86,18 @@ def make_classes(ctl):
             if children:
                 self.children = children
 
+    class EQ(NM):
+        """user class with value equality: every two nodes compare equal (hashable)"""
+
+        def __eq__(self, other):
+            return isinstance(other, EQ)
+
+        def __ne__(self, other):
+            return not isinstance(other, EQ)
+
+        def __hash__(self):
+            return 3
+
     class ND(H, Node):
         def __init__(self, parent=None, children=None):
             ctl.register(self)
@@ -111,7 +125,7 @@ def make_classes(ctl):
             if children:
                 self.children = children
 
-    return {"mixin": NM, "node": ND, "anynode": AN, "symlink": SL, "light": LT}
+    return {"mixin": NM, "node": ND, "anynode": AN, "symlink": SL, "light": LT, "eqmixin": EQ}
 
 
 class NotANode(object):
@@ -170,7 +184,15 @@ def _impl(case):
                 ctl.nodes[op["n"]].parent = arg(op["v"])
             elif k == "sc":
                 xs = op["xs"]
-                ctl.nodes[op["n"]].children = 5 if xs is None else [arg(x) for x in xs]
+                val = 5 if xs is None else [arg(x) for x in xs]
+                how = op.get("as")
+                if xs is not None and how == "tuple":
+                    val = tuple(val)
+                elif xs is not None and how == "iter":
+                    val = iter(val)
+                elif xs is not None and how == "gen":
+                    val = (x for x in list(val))
+                ctl.nodes[op["n"]].children = val
             elif k == "dc":
                 del ctl.nodes[op["n"]].children
             elif k == "ctor":
